@@ -52,13 +52,17 @@ def p4(ctx, rid):
     fnd = [f.id for f in prog.fns.values() if f.id == f.root and f.id.endswith('FileIndexTrait<K>>::find_by_key') and 'BPTreeFileIndex' in f.id]
     if not ser or not ldr or not fnd:
         raise core.AnchorLost('append_headers / get_records_headers / find_by_key: %s %s %s' % (len(ser), len(ldr), len(fnd)))
-    w = [c for c in _family_calls(prog, ser[0]) if c.name == 'rev' and (c.trait or '').endswith('Iterator')]
-    l = [c for c in _family_calls(prog, ldr[0]) if c.name == 'reverse' and 'record::record::Header' in c.full]
     L, E = prog.may_reach()
-    reach = set(prog.family(fnd[0]))
-    for g in list(reach):
-        reach |= {x for x in L.get(g, ()) if prog.fns[x].file.startswith('src/blob/index/bptree/')}
-    s = [c for g in sorted(reach) for c in prog.fns[g].calls if c.bb in prog.fns[g].reachable() and c.name == 'reverse' and 'record::record::Header' in c.full]
+
+    def reach_calls(root):
+        # the body, its closures and the helpers of the b+tree module it may reach (named helpers, fn items handed to adaptors)
+        reach = set(prog.family(root))
+        for g in list(reach):
+            reach |= {x for x in L.get(g, ()) if x in prog.fns and prog.fns[x].file.startswith('src/blob/index/bptree/')}
+        return [c for g in sorted(reach) for c in prog.fns[g].calls if c.bb in prog.fns[g].reachable()]
+    w = [c for c in reach_calls(ser[0]) if c.name == 'rev' and (c.trait or '').endswith('Iterator')]
+    l = [c for c in reach_calls(ldr[0]) if c.name == 'reverse' and 'record::record::Header' in c.full]
+    s = [c for c in reach_calls(fnd[0]) if c.name == 'reverse' and 'record::record::Header' in c.full]
     key = 'per-key-order-convention'
     state = (bool(w), bool(l), bool(s))
     if state in ((True, True, True), (False, False, False)):
@@ -244,6 +248,56 @@ def p9(ctx, rid):
     c05.v12(ctx, rid)
 
 
+def p10(ctx, rid):
+    """a non-leaf node of the on-disk tree fits into one block for every key length: lookups fetch an inner node (and cache the
+    root) as exactly BLOCK_SIZE bytes, so a completely filled node may not be larger.  Decided symbolically: the fan-out formula
+    (max_nonleaf_node_capacity) and the node size formula (Node::serialized_size_with_keys, children - 1 keys) are evaluated to
+    polynomials over the key length and the meta size; the division is eliminated with q*D <= X and the remaining inequality
+    size <= BLOCK_SIZE must hold coefficient-wise.  `(B - meta - off) / (key + off) + 1` passes in any arrangement; dropping the
+    reserve for the extra offset leaves `B + off <= B`, which does not."""
+    import poly
+    prog = ctx.prog
+    cap_f = [f for f in prog.fns.values() if f.id == prog.fns[f.id].root and f.id.endswith('::max_nonleaf_node_capacity')]
+    size_f = [f for f in prog.fns.values() if f.id == prog.fns[f.id].root and f.id.endswith('Node::serialized_size_with_keys')]
+    blk = prog.consts.get('blob::index::bptree::core::BLOCK_SIZE', {}).get('int')
+    if not cap_f or not size_f or blk is None:
+        raise core.AnchorLost('max_nonleaf_node_capacity / Node::serialized_size_with_keys / BLOCK_SIZE')
+    key = 'full-inner-node-fits-a-block'
+    ce = poly.Eval(prog, cap_f[0], {1: 'key'}).run()
+    se = poly.Eval(prog, size_f[0], {1: 'key', 2: 'keys'}).run()
+    cap, size = ce.result(), se.result()
+    if cap is None or size is None:
+        ctx.bad(rid, key, cap_f[0].where(), 'the capacity / node size formula is no longer an arithmetic expression this rule can evaluate (capacity: %s, size: %s)' % (cap, size))
+        return
+    # the serializer hands `children - 1` as the number of keys of a node
+    n_ok = 0
+    for f in prog.fns.values():
+        if f.file != 'src/blob/index/bptree/serializer.rs':
+            continue
+        import affine
+        ev = None
+        for c in f.calls:
+            if c.bb in f.reachable() and c.name == 'serialized_size_with_keys' and len(c.args) > 1:
+                ev = ev or affine.Eval(prog, f).run()
+                v = ev.scalar(c.args[1])
+                if v is not None and v.get(1) == -1 and sorted(x for k, x in v.items() if k != 1) == [1] and all(str(k).startswith('len(') for k in v if k != 1):
+                    n_ok += 1
+                else:
+                    ctx.bad(rid, key + '|keys-are-children-minus-one', c.where(), 'the node size is asked for a key count that is not `children - 1` (%s)' % (affine.show(v) if v else '?'))
+                    return
+    if n_ok < 1:
+        raise core.AnchorLost('serialized_size_with_keys(.., children - 1) call sites in the serializer')
+    full = poly.subst(size, 'keys', poly.add(cap, poly.const(1), -1))
+    ok, bound = poly.bound_le(full, poly.const(blk), ce.facts)
+    if ok:
+        ctx.ok(rid, key, cap_f[0].where(), 'capacity = %s with %s; size of a full node <= %s <= %d for every key length' % (
+            poly.show(cap), ', '.join('%s = floor((%s) / (%s))' % (q, poly.show(X), poly.show(D)) for q, (X, D) in ce.facts.items()), poly.show(bound), blk))
+    else:
+        ctx.bad(rid, key, cap_f[0].where(), 'a completely filled non-leaf node can exceed the %d-byte block the readers fetch: capacity = %s (%s), full node size <= %s, '
+                'which is not <= %d for all key lengths (its last child offsets lie outside the block that lookups read)' % (
+                    blk, poly.show(cap), ', '.join('%s = floor((%s) / (%s))' % (q, poly.show(X), poly.show(D)) for q, (X, D) in ce.facts.items()), poly.show(bound), blk))
+
+
 RULES = [
     Rule('C09.P1', 'keys are ordered through the key type, never as raw byte strings, in the index code (C04.T10 instances)', p1, 4),
     Rule('C09.P2', 'cursors over the on-disk leaf region move by whole record headers (C04.T12 instances)', p2, 4),
@@ -253,5 +307,6 @@ RULES = [
     Rule('C09.P7', 'the writing pass and the parent-building pass of the tree serializer share one (min, max) amount computation', p7, 1),
     Rule('C09.P8', 'the in-buffer walk always hands over to the file walk unless it saw the next key', p8, 1),
     Rule('C09.P9', 'the reused buffer of the on-disk walks is resized before every exact read (C05.V12 instances)', p9, 3),
+    Rule('C09.P10', 'a completely filled non-leaf node fits into one block for every key length (polynomial evaluation of the fan-out and node-size formulas)', p10, 1),
     Rule('C09.P5', 'the on-disk latest-version lookup takes the leftmost header of the key', p5, 1),
 ]
